@@ -34,7 +34,9 @@ def conc(model, v, depth=0):
         return r.as_long()
     if isinstance(v, (bool, int, float)) or v is None: return v
     if isinstance(v, RString): return chars_to_str(model, v.c)
-    if isinstance(v, tuple): return chars_to_str(model, v)
+    if isinstance(v, tuple):
+        if all(isinstance(x, int) and not isinstance(x, bool) or is_sym(x) for x in v): return chars_to_str(model, v)
+        return [conc(model, x) for x in v]
     if isinstance(v, RVec): return [conc(model, x) for x in v.v]
     if isinstance(v, Slice): return [conc(model, x) for x in v.items()]
     if isinstance(v, list): return [conc(model, x) for x in v]
@@ -104,9 +106,9 @@ def explore(prog, harness, on_leaf, profile='dev', max_paths=None, deadline=None
         except Cutoff:
             st.cutoffs.append(ctx.trail_signature())
         except Unsupported as u:
-            leaf = Leaf('unsupported', None, msg=str(u), where=[f.fn.name for f in I.stack[-4:]])
+            leaf = Leaf('unsupported', None, msg=str(u), where=getattr(u, 'where', None))
         except StepBudget as b:
-            leaf = Leaf('budget', None, msg=str(b), where=[f.fn.name for f in I.stack[-4:]])
+            leaf = Leaf('budget', None, msg=str(b), where=getattr(b, 'where', None))
         except Inconclusive as b:
             leaf = Leaf('inconclusive', None, msg=str(b))
         except RecursionError:
